@@ -67,10 +67,12 @@ func (k Keeper) RecvPacket(goCtx context.Context, msg *packettypes.MsgRecvPacket
 	}
 
 	if packet.GetDstChain() == k.ClientKeeper.GetChainName(cctx) {
-		// call packet onRecvPacket
-		res, err := k.PacketKeeper.CallPacket(ctx, "onRecvPacket", packet)
+		// call packet onRecvPacket on the cache context: whatever the callback did (EVM state, post-transaction
+		// hooks, events) is committed only if it succeeded with result code 0; the acknowledgement is always
+		// written on ctx
+		res, err := k.PacketKeeper.CallPacket(cctx, "onRecvPacket", packet)
 		if err != nil {
-			// Write ErrAck
+			// Write ErrAck, cctx is discarded
 			errAckBz, err := packettypes.NewAcknowledgement(1, []byte{}, "receive packet callback failed", relayer, packet.FeeOption).ABIPack()
 			if err != nil {
 				return nil, sdkerrors.Wrapf(packettypes.ErrInvalidAcknowledgement, "pack ack failed")
@@ -91,6 +93,11 @@ func (k Keeper) RecvPacket(goCtx context.Context, msg *packettypes.MsgRecvPacket
 		}
 		if err := k.PacketKeeper.WriteAcknowledgement(ctx, &packet, ackBz); err != nil {
 			return nil, err
+		}
+		if result.Code != 0 {
+			// the callback reported a failure (error acknowledgement, the source chain will refund):
+			// none of its state changes may stay, cctx is discarded
+			return &packettypes.MsgRecvPacketResponse{}, nil
 		}
 	} else if _, found := k.ClientKeeper.GetClientState(ctx, packet.GetDstChain()); !found {
 		// Write ErrAck
